@@ -48,9 +48,9 @@ func c20Configs(tier string) []vmc.Cfg {
 	}
 	for _, impl := range []string{"plain", "shared", "factory"} {
 		for _, pb := range []int{0, 8} {
-			c := c20cfg{impl: impl, prefixBits: pb, batchSize: 2, depth: depth, nkeys: 4, faults: true, crash: true}
+			c := c20cfg{impl: impl, prefixBits: pb, batchSize: 2, depth: depth, nkeys: 3, faults: true, crash: true}
 			if tier == "thorough" {
-				c.nkeys = 5
+				c.nkeys = 4
 			}
 			out = append(out, vmc.Cfg{Name: fmt.Sprintf("seq/%s/prefixBits%d/batch%d/depth%d/keys%d", impl, pb, c.batchSize, c.depth, c.nkeys), Budget: 1, Data: c})
 		}
@@ -122,9 +122,9 @@ func c20Ops(c c20cfg) []c20op {
 
 // c20env holds the datastores of one execution.
 type c20env struct {
-	c     c20cfg
-	group *jds.Group
-	hook  func(op, key string) error
+	c      c20cfg
+	group  *jds.Group
+	hook   func(op, key string) error
 	bufCap int
 }
 
@@ -497,37 +497,57 @@ func c20SeqRun(x *vmc.X, cfg vmc.Cfg) {
 		// crash points are not combined with an injected datastore error (see DESIGN.md, C20)
 		return
 	}
-	// ---- terminal: crash at any journal instant of the history --------------------------------
+	// ---- terminal: crash at every journal instant of the history (E5) ---------------------------
+	// Enumerated in a loop (not as explorer choices): every instant t, and for every store every
+	// length of lost suffix of its pending (unsynced) writes.
 	lastAck := hist[len(hist)-1].ackJ
-	t := x.Choose(lastAck+1, vmc.Free, "crash-instant")
-	pending := jds.Pending(journal, t)
-	lost := map[int]bool{}
-	var stores []string
-	for n := range pending {
-		stores = append(stores, n)
-	}
-	sort.Strings(stores)
-	for _, n := range stores {
-		// ordered loss per store: the last j pending writes of this store did not reach the disk
-		k := len(pending[n])
-		j := x.Choose(k+1, vmc.Free, "lost-suffix:"+n)
-		for _, i := range pending[n][k-j:] {
-			lost[i] = true
+	ks.Close()
+	for t := 0; t <= lastAck; t++ {
+		pending := jds.Pending(journal, t)
+		var stores []string
+		for n := range pending {
+			stores = append(stores, n)
+		}
+		sort.Strings(stores)
+		combos := [][]int{{}}
+		for _, n := range stores {
+			var nx [][]int
+			for _, cmb := range combos {
+				for j := 0; j <= len(pending[n]); j++ {
+					nx = append(nx, append(append([]int{}, cmb...), j))
+				}
+			}
+			combos = nx
+		}
+		for _, cmb := range combos {
+			lost := map[int]bool{}
+			for si, n := range stores {
+				k := len(pending[n])
+				for _, i := range pending[n][k-cmb[si]:] {
+					lost[i] = true
+				}
+			}
+			vmc.Count("crash_images", 1)
+			if !c20CheckCrash(x, c, keys, journal, hist, t, lastAck, lost) {
+				return
+			}
 		}
 	}
-	x.Obs("crash at %d lost %v", t, lost)
+}
+
+func c20CheckCrash(x *vmc.X, c c20cfg, keys *c20keys, journal []jds.Entry, hist []c20hist, t, lastAck int, lost map[int]bool) bool {
 	img := jds.CrashImage(journal, t, lost)
 	env2 := &c20env{c: c, group: img}
 	ks2, _, err := env2.open()
 	if err != nil {
 		x.Failf("C20/reopen-after-crash", "reopen after crash at %d: %v", t, err)
-		return
+		return false
 	}
 	defer ks2.Close()
 	got, err := c20Contents(ks2, keys)
 	if err != nil {
 		x.Failf("C20/contents-after-crash", "crash at %d: %v", t, err)
-		return
+		return false
 	}
 	// allowed: every operation acknowledged by instant t is in effect; the one in flight may be
 	// applied per key (put/delete/empty) or as a whole (reset).
@@ -537,10 +557,8 @@ func c20SeqRun(x *vmc.X, cfg vmc.Cfg) {
 		h := &hist[i]
 		if h.ackJ <= t {
 			base = h.after
-		} else if h.startJ < t || h.ackJ > t {
-			if inflight == nil && h.startJ <= t {
-				inflight = h
-			}
+		} else if inflight == nil && h.startJ <= t {
+			inflight = h
 		}
 	}
 	ok := true
@@ -548,22 +566,10 @@ func c20SeqRun(x *vmc.X, cfg vmc.Cfg) {
 		ok = setStr(got) == setStr(base)
 	} else if inflight.op.name == "reset" {
 		ok = setStr(got) == setStr(inflight.before) || setStr(got) == setStr(inflight.after)
-		if inflight.failed {
-			nw := map[int]bool{}
-			for _, i := range inflight.op.keys {
-				nw[i] = true
-			}
-			ok = ok || setStr(got) == setStr(nw)
-		}
 	} else {
 		for i := 0; i < c.nkeys; i++ {
 			if got[i] != inflight.before[i] && got[i] != inflight.after[i] {
-				if !(inflight.failed && contains(inflight.op.keys, i)) && inflight.op.name != "empty" {
-					ok = false
-				}
-				if inflight.op.name == "empty" && got[i] && !inflight.before[i] {
-					ok = false
-				}
+				ok = false
 			}
 		}
 	}
@@ -573,11 +579,9 @@ func c20SeqRun(x *vmc.X, cfg vmc.Cfg) {
 			desc = inflight.op.String()
 		}
 		x.Failf("C20/crash-contents", "crash at journal instant %d/%d (lost %v): reopened keystore holds %s; acknowledged state %s, in flight: %s", t, lastAck, lost, setStr(got), setStr(base), desc)
-		return
+		return false
 	}
-	if !c20Reads(x, ks2, keys, got, fmt.Sprintf("after crash at %d", t)) {
-		return
-	}
+	return c20Reads(x, ks2, keys, got, fmt.Sprintf("after crash at %d", t))
 }
 
 func contains(l []int, v int) bool {
